@@ -727,6 +727,32 @@ def dotgoit_names():
     save("dotgoit_names", ["C05", "C17", "C13", "C08", "C09", "C04", "C07"], steps)
 
 
+def ignore_nested_args():
+    """ignored directories named directly or reached through a parent argument, at the root and nested"""
+    steps = head()
+    steps.append({"ev": "write", "p": ".goitignore", "data": "build/\nsrc/gen/\n*.o\n", "old": False})
+    for p_ in ("src/gen/out.go", "src/lib/lib.go", "src/main.go", "src/build/y.txt", "src/lib/z.o", "build/x", "docs/a", "docs/build/b", "top.o", "top.txt"):
+        steps.append(w(p_, p_ + "\n"))
+    steps.append({"ev": "status"})
+    steps.append({"ev": "add", "paths": ["src/build"]})
+    steps.append({"ev": "add", "paths": ["src/gen"]})
+    steps.append({"ev": "add", "paths": ["src/gen/out.go", "src/lib/z.o"]})
+    steps.append({"ev": "lsfiles"})
+    steps.append({"ev": "add", "paths": ["src"]})
+    steps.append({"ev": "lsfiles"})
+    steps.append({"ev": "add", "paths": ["docs", "build", "top.o"]})
+    steps.append({"ev": "lsfiles"})
+    steps.append({"ev": "add", "paths": ["."]})
+    steps.append({"ev": "lsfiles"})
+    steps.append({"ev": "status"})
+    steps.append({"ev": "commit", "msg": "one"})
+    steps.append(w("src/gen/out.go", "changed\n"))
+    steps.append(w("src/main.go", "changed\n"))
+    steps.append({"ev": "add", "paths": ["src"]})
+    steps.append({"ev": "status"})
+    save("ignore_nested_args", ["C17", "C04", "C13"], steps)
+
+
 if __name__ == "__main__":
     name_lengths()
     big_index()
@@ -753,3 +779,4 @@ if __name__ == "__main__":
     deep_path()
     spelled_args()
     dotgoit_names()
+    ignore_nested_args()
